@@ -1,2 +1,2 @@
--- stub: replaced by the real driver for model Registry (imports Pyrtma.Drv.Registry)
-def main : IO Unit := pure ()
+import Pyrtma.Drv.Registry
+def main : IO Unit := Pyrtma.Drv.Registry.main
